@@ -5,12 +5,14 @@ pub mod lexchk;
 pub mod textchk;
 pub mod valsem;
 pub mod c12;
+pub mod c13;
 pub mod c18;
 pub mod c19;
 pub mod c20;
 pub mod c21;
 pub mod c22;
 pub mod c23;
+pub mod c25;
 pub mod c27;
 pub mod c28;
 
@@ -22,12 +24,14 @@ pub fn registry() -> Vec<CheckDef> {
     v.extend(lexchk::defs());
     v.extend(textchk::defs());
     v.push(c12::def());
+    v.push(c13::def());
     v.push(c18::def());
     v.push(c19::def());
     v.push(c20::def());
     v.push(c21::def());
     v.push(c22::def());
     v.push(c23::def());
+    v.push(c25::def());
     v.push(c27::def());
     v.push(c28::def());
     v
